@@ -41,6 +41,7 @@ func verifYield(site string) {
 type verifCtxPool struct {
 	New  func() any
 	real sync.Pool
+	once sync.Once
 }
 
 // Get a context from the pool.
@@ -48,9 +49,7 @@ func (p *verifCtxPool) Get() any {
 	if h := VerifHooks.PoolGet; h != nil {
 		return h(p.New)
 	}
-	if p.real.New == nil {
-		p.real.New = p.New
-	}
+	p.once.Do(func() { p.real.New = p.New })
 	return p.real.Get()
 }
 
